@@ -99,6 +99,8 @@ type PutEvent struct {
 	Clock int64
 	// Incarnation counts restarts of the node.
 	Incarnation int
+	// Stale marks a write attempted by the handler of an earlier incarnation after the node was restarted.
+	Stale bool
 }
 
 // SyncEvent is one SyncChain call.
@@ -264,7 +266,7 @@ func (nd *Node) Boot(fresh bool) error {
 	if conf.Public == nil {
 		return fmt.Errorf("node %s not in its group", nd.Addr)
 	}
-	h, err := beacon.NewHandler(context.Background(), &client{n: nd.net, from: nd}, nd.Rec, conf, nd.Log, common.GetAppVersion())
+	h, err := beacon.NewHandler(context.Background(), &client{n: nd.net, from: nd}, &incStore{RecStore: nd.Rec, own: base, inc: nd.Inc}, conf, nd.Log, common.GetAppVersion())
 	if err != nil {
 		return err
 	}
